@@ -460,10 +460,21 @@ pub fn pool_op(rng: &mut Rng, c: &Corpus, sw: &Swarm, n: usize, focus: &str) -> 
             7 => {
                 let l = scaled_len(rng, 0, 4, 25);
                 let is: Vec<usize> = (0..l).map(|_| idx(rng, n)).collect();
-                match rng.below(3) {
+                // long sums: scalars of about 80 bits (they cross a limb boundary, and the reference stays quick)
+                let sc = |rng: &mut Rng| -> Hex {
+                    if l > 16 {
+                        let mut b = rng.bytes(10);
+                        b[9] |= 0x80;
+                        hex(&b)
+                    } else {
+                        scalar_hex(rng)
+                    }
+                };
+                match rng.below(4) {
+                    3 => EOp::SumOfAffine(is, rng.chance(1, 2)),
                     0 => EOp::SumOf(is),
-                    1 => EOp::Msm(is, (0..l).map(|_| scalar_hex(rng)).collect()),
-                    _ => EOp::MultiscalarMul(is, (0..l).map(|_| scalar_hex(rng)).collect()),
+                    1 => EOp::Msm(is, (0..l).map(|_| sc(rng)).collect()),
+                    _ => EOp::MultiscalarMul(is, (0..l).map(|_| sc(rng)).collect()),
                 }
             }
             _ => EOp::Sub(idx(rng, n), idx(rng, n)),
